@@ -166,6 +166,8 @@ def _get_cwd():
 
 
 def _change_working_directory(newdir, follow_symlinks=False):
+    """Changes the process directory and ``$PWD``/``$OLDPWD``.
+    Returns ``False`` (after printing the reason) if the directory could not be entered."""
     env = XSH.env
     old = env["PWD"]
     new = os.path.join(old, newdir)
@@ -178,7 +180,7 @@ def _change_working_directory(newdir, follow_symlinks=False):
         os.chdir(absnew)
     except OSError as e:
         print(f"cd: {e}", file=sys.stderr)
-        return
+        return False
     else:
         if old is not None:
             env["OLDPWD"] = old
@@ -188,6 +190,7 @@ def _change_working_directory(newdir, follow_symlinks=False):
     # Fire event if the path actually changed
     if old != env["PWD"]:
         events.on_chdir.fire(olddir=old, newdir=env["PWD"])
+    return True
 
 
 def _try_cdpath(apath):
@@ -279,12 +282,14 @@ def cd(args, stdin=None):
             1,
         )
 
-    # now, push the directory onto the dirstack if AUTO_PUSHD is set
-    if cwd is not None and env.get("AUTO_PUSHD"):
+    auto_pushd = cwd is not None and env.get("AUTO_PUSHD")
+    if auto_pushd and ON_WINDOWS and _is_unc_path(d):
+        d = _unc_map_temp_drive(d)
+    if not _change_working_directory(d, follow_symlinks):
+        return None, None, 1
+    # now, push the directory we left onto the dirstack if AUTO_PUSHD is set
+    if auto_pushd:
         pushd(["-n", "-q", cwd])
-        if ON_WINDOWS and _is_unc_path(d):
-            d = _unc_map_temp_drive(d)
-    _change_working_directory(d, follow_symlinks)
     return None, None, 0
 
 
@@ -323,6 +328,7 @@ def pushd_fn(
     env = XSH.env
 
     pwd = env["PWD"]
+    stack_before = list(DIRSTACK)
 
     if env.get("PUSHD_MINUS", False):
         BACKWARD = "-"
@@ -370,8 +376,11 @@ def pushd_fn(
         if ON_WINDOWS and _is_unc_path(new_pwd):
             new_pwd = _unc_map_temp_drive(new_pwd)
         if cd:
+            if not _change_working_directory(new_pwd):
+                # nothing happened: leave the stack as it was
+                DIRSTACK = stack_before
+                return None, None, 1
             DIRSTACK.insert(0, os.path.expanduser(pwd))
-            _change_working_directory(new_pwd)
         else:
             DIRSTACK.insert(0, os.path.expanduser(new_pwd))
 
@@ -465,7 +474,10 @@ def popd_fn(
             env = XSH.env
             pwd = env["PWD"]
 
-            _change_working_directory(new_pwd)
+            if not _change_working_directory(new_pwd):
+                # nothing happened: the entry stays on top of the stack
+                DIRSTACK.insert(0, new_pwd)
+                return None, None, 1
 
             if ON_WINDOWS:
                 drive, rem_path = os.path.splitdrive(pwd)
